@@ -125,6 +125,29 @@ func finalizeAndRespond(r responder.Responder, resp io.Reader, status int, req *
 }
 
 func (p *Proxy) handleRangeRequest(r responder.Responder, req *http.Request, cached *cache.Entry[cachedRequestInfo], key cache.CacheKey, clientHd *headers.HeaderDirectives) error {
+	// An If-Range that does not match makes the Range header void (RFC 9110 section 13.1.5), so it is
+	// looked at first: also a range that could not be satisfied is then answered with the full 200.
+	if clientHd.IfRange.IsPresent() {
+		ifRange := clientHd.IfRange.Value()
+		if ifRange.IsLeft() {
+			// IfRange is ETag
+			etagIfRange := ifRange.ForceUnwrapLeft()
+			if etagIfRange != cached.Metadata.Object.ETag {
+				slog.Info("If-Range does not match cached ETag. Sending full 200 response.", "url", req.URL, "key", key)
+				return ErrIfRangeMismatch
+			}
+		} else {
+			// IfRange is Time
+			timeIfRange := ifRange.ForceUnwrapRight()
+			// A date validator matches only if it is exactly the stored Last-Modified (RFC 9110 section 13.1.5).
+			if !timeIfRange.Equal(cached.Metadata.Object.LastModified) {
+				slog.Info("If-Range does not match cached Last-Modified. Sending full 200 response.", "url", req.URL, "key", key)
+				return ErrIfRangeMismatch
+			}
+		}
+
+	}
+
 	rangeHeader := clientHd.Range.Value()
 	start, end, err := rangeHeader.SliceSize(cached.Metadata.Size)
 	if err != nil {
@@ -154,27 +177,6 @@ func (p *Proxy) handleRangeRequest(r responder.Responder, req *http.Request, cac
 
 		r.SetHeaders(header)
 		return finalizeAndRespond(r, data, status, req)
-	}
-
-	if clientHd.IfRange.IsPresent() {
-		ifRange := clientHd.IfRange.Value()
-		if ifRange.IsLeft() {
-			// IfRange is ETag
-			etagIfRange := ifRange.ForceUnwrapLeft()
-			if etagIfRange != cached.Metadata.Object.ETag {
-				slog.Info("If-Range does not match cached ETag. Sending full 200 response.", "url", req.URL, "key", key)
-				return ErrIfRangeMismatch
-			}
-		} else {
-			// IfRange is Time
-			timeIfRange := ifRange.ForceUnwrapRight()
-			// A date validator matches only if it is exactly the stored Last-Modified (RFC 9110 section 13.1.5).
-			if !timeIfRange.Equal(cached.Metadata.Object.LastModified) {
-				slog.Info("If-Range does not match cached Last-Modified. Sending full 200 response.", "url", req.URL, "key", key)
-				return ErrIfRangeMismatch
-			}
-		}
-
 	}
 
 	length := end - start + 1
